@@ -9,7 +9,7 @@ DEFAULT_PROFILE = dict(
     p_opt=0.1, p_split=0.15, p_default=0.35, p_subdir=0.2, p_twodot=0.3,
     steps=(6, 18),
     ops=dict(build=8, edit_r=3, edit_i=2, touch=1, rm=2, doedit=1, doadd=1, dorm=1, sel=2, flag=2, watch=2,
-             force=1, repeat=2, uwrite=0, urm=0, dorm_last=0.5, m_watchduring=0, chmod=0, edit_keep=0.7),
+             force=1, repeat=2, uwrite=0, urm=0, dorm_last=0.5, m_watchduring=0, chmod=0, edit_keep=0.7, m_failedit=0),
     jmax=1, p_keep=0.0, p_multi=0.25,
 )
 
@@ -298,6 +298,15 @@ def gen_op(rnd, p, prof, last_build=None):
         j = 1 if prof['jmax'] <= 1 else rnd.choice([1, prof['jmax']])
         b = ('build', [top], dict(j=j, keep=rnd.random() < prof['p_keep'], forced=False))
         return [b, ('flag', n, 1), b, b, ('flag', n, 0), b, b]
+    if op == 'm_failedit':
+        # a rebuild fails and leaves the old file; then the user edits the file by hand; then the cause of the failure goes away
+        c = [n for n in tnames if not p.targets[n].get('phony') and not p.targets[n].get('hfail') and n not in _opt_closure(p) and n not in p.user]
+        if not c:
+            return None
+        n = rnd.choice(c)
+        how = rnd.choice(['inplace', 'replace', 'samesize'])
+        return [('build', [n], dict(j=1, keep=False, forced=False)), ('hflag', n, 1), ('build', [n], dict(j=1, keep=False, forced=True)), ('uwrite', n, how),
+                ('hflag', n, 0), ('build', [n], dict(j=1, keep=False, forced=False)), ('build', [n], dict(j=1, keep=False, forced=True))]
     if op == 'm_watchduring':
         # the watched path appears while the watcher's script runs (after its redo-ifcreate): the next redo-ifchange must rebuild it
         c = [n for n in tnames if p.targets[n].get('watch') and p.watch.get(p.targets[n]['watch']) is None and p.targets[n]['watch'] not in p.watch_link
